@@ -89,8 +89,21 @@ class C13(C12):
                             for sy in e.symbols:
                                 if any(sy.name == d or sy.name.startswith(d + "_sfx") for d in tmpdefs) and not sy.name.endswith(f"_sfx{k}"):
                                     bads.append(dict(what=f"copy {k} refers to {sy.name}: a label of another copy", input={"text": text}, finding=None))
+        # the suffix source of a whole rewrite: functions added with register_insert_function and ordinary insertions of the same text
+        from harness import funcins
+        rnd2 = C.rng("c13-funcins" + ("-boost" if boosted else ""))
+        extra = 0
+        for _ in range({"quick": 300, "thorough": 3000}["thorough" if boosted else tier]):
+            sd = rnd2.randrange(1 << 30)
+            r2 = funcins.run(sd)
+            if r2["error"]:
+                continue
+            extra += 1
+            for w in funcins.check_names(r2)[:1]:
+                bads.append(dict(what="after a rewrite that inserts the same patch several times (as functions and at ordinary places): " + w,
+                                 input={"funcins_seed": sd, "functions": [t for _, _, t in r2["inserted"]]}, finding=None))
         bads = [b for b in bads if b["finding"] is None][:10] + [b for b in bads if b["finding"]][:2]
-        return dict(evaluations=len(pairs), violations=bads, samples=[{"oracle": "symbol identity and uniqueness; chunked == whole; two copies with different suffixes"}])
+        return dict(evaluations=len(pairs) + extra, violations=bads, samples=[{"oracle": "symbol identity and uniqueness; chunked == whole; two copies with different suffixes"}])
 
     def classify_chunks(self, chunks, out, pie, undef):
         # known finding: every assemble() call starts in .text again, so data following a section switch of an earlier chunk lands in .text
